@@ -313,6 +313,69 @@ func checkCrafted(name string, general []asn1.RawValue, wantIDs []string, mustRe
 	return out
 }
 
+// checkForeignRequest: a request that was NOT made by receptor's own tooling and asks for more than names
+// (CA flag, certificate-signing key usage, name constraints, a private extension). The signing step copies the
+// requested names and nothing else: the certificate is an end-entity certificate for exactly these names, and
+// nothing minted with it is accepted.
+func checkForeignRequest(name string, extra []pkix.Extension) CaseOut {
+	c20Setup()
+	var out CaseOut
+	out.Nontrivial = true
+	san, err := utils.MakeReceptorSAN([]string{"edge.example"}, nil, []string{"edge-7"})
+	if err != nil {
+		out.violate("harness:c20-san", "%v", err)
+		return out
+	}
+	tmpl := &x509.CertificateRequest{Subject: pkix.Name{CommonName: "edge-7"}, ExtraExtensions: append([]pkix.Extension{*san}, extra...)}
+	der, err := x509.CreateCertificateRequest(rand.Reader, tmpl, c20Key)
+	if err != nil {
+		out.Outcome = "request-not-encodable"
+		return out
+	}
+	req, err := x509.ParseCertificateRequest(der)
+	if err != nil {
+		out.Outcome = "request-not-parsable"
+		return out
+	}
+	cert, err := certificates.SignCertReq(req, c20CA, &certificates.CertOptions{})
+	if err != nil {
+		out.Outcome = "sign-refused" // refusing such a request is fine
+		return out
+	}
+	ctx := "request with " + name
+	if cert.IsCA {
+		out.violate("cert:foreign-request:issued-a-ca", "%s: the issued certificate is a CA certificate", ctx)
+	}
+	if cert.KeyUsage&(x509.KeyUsageCertSign|x509.KeyUsageCRLSign) != 0 {
+		out.violate("cert:foreign-request:signing-key-usage", "%s: the issued certificate may sign certificates / CRLs (key usage %#x)", ctx, int(cert.KeyUsage))
+	}
+	allowed := map[string]bool{"2.5.29.17": true, "2.5.29.15": true, "2.5.29.37": true, "2.5.29.19": true, "2.5.29.35": true, "2.5.29.14": true}
+	for _, e := range cert.Extensions {
+		if !allowed[e.Id.String()] {
+			out.violate("cert:foreign-request:copied-extension", "%s: the issued certificate carries extension %s, which is not a name", ctx, e.Id)
+		}
+	}
+	if ids, err := utils.ReceptorNames(cert.Extensions); err != nil || !eqStrings(ids, []string{"edge-7"}) {
+		out.violate("cert:cert-different-ids:foreign-request", "%s: names read back %v, %v", ctx, ids, err)
+	}
+	// mint a certificate for another node with the issued one and present the chain
+	lkey, _ := rsa.GenerateKey(rand.Reader, 2048)
+	lsan, _ := utils.MakeReceptorSAN(nil, nil, []string{"controller"})
+	lt := &x509.Certificate{SerialNumber: big.NewInt(77), Subject: pkix.Name{CommonName: "controller"}, NotBefore: time.Now().Add(-time.Hour), NotAfter: time.Now().Add(time.Hour),
+		KeyUsage: x509.KeyUsageDigitalSignature, ExtKeyUsage: []x509.ExtKeyUsage{x509.ExtKeyUsageServerAuth, x509.ExtKeyUsageClientAuth}, ExtraExtensions: []pkix.Extension{*lsan}}
+	if lder, err := x509.CreateCertificate(rand.Reader, lt, cert, &lkey.PublicKey, c20Key); err == nil {
+		cfg := &tls.Config{RootCAs: c20Pool, ClientCAs: c20Pool}
+		for _, vt := range []netceptor.VerifyType{netceptor.VerifyServer, netceptor.VerifyClient} {
+			f := netceptor.ReceptorVerifyFunc(cfg, nil, "controller", netceptor.ExpectedHostnameTypeReceptor, vt, quietLogger())
+			if f([][]byte{lder, cert.Raw}, nil) == nil {
+				out.violate("cert:foreign-request:minted-identity-accepted", "%s: a certificate for node \"controller\" minted with the issued certificate is accepted by receptor's verification", ctx)
+			}
+		}
+	}
+	out.Outcome = "foreign-request-ok"
+	return out
+}
+
 func eqIPs(a, b []net.IP) bool {
 	if len(a) != len(b) {
 		return false
@@ -388,6 +451,33 @@ func runC20(w *W) {
 			}
 		}
 	}
+	// requests made by other tools that ask for more than names
+	{
+		bcCA, _ := asn1.Marshal(struct {
+			IsCA bool `asn1:"optional"`
+		}{true})
+		ku, _ := asn1.Marshal(asn1.BitString{Bytes: []byte{0x06}, BitLength: 7}) // keyCertSign | cRLSign
+		kuAll, _ := asn1.Marshal(asn1.BitString{Bytes: []byte{0xfe}, BitLength: 7})
+		nc, _ := asn1.Marshal([]asn1.RawValue{})
+		priv, _ := asn1.Marshal("hello")
+		ext := func(oid []int, crit bool, v []byte) pkix.Extension {
+			return pkix.Extension{Id: asn1.ObjectIdentifier(oid), Critical: crit, Value: v}
+		}
+		menu := map[string][]pkix.Extension{
+			"basicConstraints CA:TRUE":                {ext([]int{2, 5, 29, 19}, true, bcCA)},
+			"keyUsage keyCertSign+cRLSign":            {ext([]int{2, 5, 29, 15}, true, ku)},
+			"CA:TRUE and keyCertSign":                 {ext([]int{2, 5, 29, 19}, true, bcCA), ext([]int{2, 5, 29, 15}, true, ku)},
+			"every key usage":                         {ext([]int{2, 5, 29, 15}, false, kuAll)},
+			"empty nameConstraints":                   {ext([]int{2, 5, 29, 30}, false, nc)},
+			"private extension 1.3.6.1.4.1.99999.1":   {ext([]int{1, 3, 6, 1, 4, 1, 99999, 1}, false, priv)},
+			"CA:TRUE, keyCertSign, private extension": {ext([]int{2, 5, 29, 19}, true, bcCA), ext([]int{2, 5, 29, 15}, true, ku), ext([]int{1, 3, 6, 1, 4, 1, 99999, 1}, false, priv)},
+			"nothing extra": nil,
+		}
+		for name, exts := range menu {
+			name, exts := name, exts
+			w.Case("foreign request "+name, func() CaseOut { return checkForeignRequest(name, exts) })
+		}
+	}
 	// crafted certificates: other name kinds next to / instead of receptor names
 	upn := asn1.ObjectIdentifier{1, 3, 6, 1, 4, 1, 311, 20, 2, 3}
 	near := asn1.ObjectIdentifier{1, 3, 6, 1, 4, 1, 2312, 19, 2}
@@ -422,7 +512,7 @@ func init() {
 		ID:        "C20",
 		Level:     "exploration",
 		Technique: "bounded-exhaustive enumeration of name sets through the real CreateCertReq/GetReqNames/SignCertReq/ReceptorNames/ReceptorVerifyFunc chain, compared with the requested names",
-		Rule: "single node IDs of every byte length 0..300 plus 1000, 16383/4, 65535/6, 70000 in ASCII, 2-byte and 3-byte UTF-8, invalid UTF-8 and NUL; all lists of <=2 (quick) / <=3 (thorough) IDs from a 5-entry menu (duplicates, case variants, long+short) x 3 DNS sets x 4 IP sets (v4, v6, v4-mapped) x validity windows; new-key path. " +
+		Rule: "single node IDs of every byte length 0..300 plus 1000, 16383/4, 65535/6, 70000 in ASCII, 2-byte and 3-byte UTF-8, invalid UTF-8 and NUL; all lists of <=2 (quick) / <=3 (thorough) IDs from a 5-entry menu (duplicates, case variants, long+short) x 3 DNS sets x 4 IP sets (v4, v6, v4-mapped) x validity windows; new-key path; 8 requests made outside receptor's tooling that ask for more than names (CA flag, certificate-signing key usage, name constraints, a private extension): the issued certificate is an end-entity certificate for the requested names only, and an identity minted with it is refused. " +
 			"Non-trivial = at least one name requested. For every issued certificate: names read back, chain to the CA, and ReceptorVerifyFunc accepts each requested ID and rejects prefix/extension/case variants/empty/other (server and client mode).",
 		Assumptions: []string{"Go's crypto/x509 parser is the reference for DNS/IP names; RSA 2048 keys only"},
 		Run:         runC20,
